@@ -377,6 +377,81 @@ def r3b_write_errors(ctx, prog):
         r.ok(f['qname'], 'flush before success', 'every successful path flushed', file=f['file'], line=f['line'])
 
 
+def r3c_syscalls(ctx, prog):
+    """Directory-level system calls: a non-zero result (any errno) is reported as failure, never as success."""
+    r = ctx.rule('C05.R3c', 'a failing remove / rmdir / mkdir is reported as failure whatever the errno', floor=3, engine='E1 finite-domain')
+    from rules.c16 import outcomes as fo
+    for q, sysc in (('Directory::remove', 'remove'), ('Directory::rmdir', 'rmdir'), ('Directory::mkdir', 'mkdir')):
+        f = prog.fn(q)
+        ctx.analysed(f)
+        # the system call fails (-1); everything else (errno, refresh) is left open
+        o = fo(f, prog, {re.compile(r'%s@\d+\(.*\)' % sysc): -1, re.compile(r'_?%s@\d+\(.*\)' % sysc): -1}, record={sysc, 'refresh'}, rounds=1, cap=128)
+        r.paths += len(o.outcomes)
+        called = [oc for oc in o.outcomes if any(e[0] == 'call' and e[1] == sysc for e in oc['events'])]
+        bad = [oc for oc in called if oc['retv'] not in (0, '0', 'false') and oc['ret'] not in ('false', '0')]
+        site = 'failing ::%s' % sysc
+        if not called:
+            r.undecided(q, site, 'the system call was not found on any path', file=f['file'], line=f['line'])
+        elif bad:
+            r.violation(q, site, 'with ::%s failing a path still returns %s: the caller (deleteObject, resetToken, clearToken, createToken) believes the file-system change happened and reports CKR_OK — a destroyed object is back after a restart' % (sysc, bad[0]['ret']),
+                        file=f['file'], line=bad[0]['line'], path=bad[0]['path'])
+        else:
+            r.ok(q, site, '%d paths, all return false' % len(called), file=f['file'], line=f['line'])
+
+
+def r1c_fresh_holders(ctx, prog):
+    """Readers of container kinds (mechanism set, attribute map) only insert into their out-parameter: every call site must hand them a holder that is fresh for this record."""
+    r = ctx.rule('C05.R1c', 'container values are read into a holder that is empty for each record (the container readers only insert)', floor=3, engine='E2')
+    readers = {}
+    for name in ('readMechanismTypeSet', 'readAttributeMap'):
+        for f in prog.fns('File::' + name):
+            pv = param_name(f, 0)
+            clears = any(short(c.get('callee')) == 'clear' and c.get('recv') is not None and canon(c['recv']) == pv for c in calls(f['body']))
+            readers[name] = clears
+    for g in sorted(prog.functions.values(), key=lambda g: (g['file'], g['line'])):
+        for c in calls(g['body']):
+            nm = short(c.get('callee'))
+            if nm not in readers or not c.get('args') or c['args'][0].get('k') != 'Var':
+                continue
+            ctx.analysed(g)
+            v = c['args'][0]['name']
+            site = '%s(%s)@%d' % (nm, v, [x for x in calls(g['body']) if short(x.get('callee')) == nm].index(c))
+            if readers[nm]:
+                r.ok(g['qname'], site, 'the reader clears its out-parameter itself', file=g['file'], line=c['l'])
+                continue
+            # innermost loop around the call, and the declaration of the holder
+            def find(node, loops):
+                if not isinstance(node, dict):
+                    return None
+                if node is c:
+                    return loops
+                nl = loops + [node] if node.get('k') in ('For', 'While', 'Do') else loops
+                for key, val in node.items():
+                    if isinstance(val, dict):
+                        res = find(val, nl)
+                        if res is not None:
+                            return res
+                    elif isinstance(val, list):
+                        for x in val:
+                            res = find(x, nl)
+                            if res is not None:
+                                return res
+                return None
+            loops = find(g['body'], []) or []
+            decl_in = None
+            m = re.search(r'@p?(\d+)$', c['args'][0].get('id', ''))
+            if m and loops:
+                dl = int(m.group(1))
+                lb = loops[-1]['body']
+                decl_in = 'loop' if lb.get('l', 0) <= dl <= lb.get('el', lb.get('l', 0)) else 'function'
+            cleared = any(short(x.get('callee')) == 'clear' and x.get('recv') is not None and canon(x['recv']) == v and x['l'] <= c['l'] and (not loops or loops[-1]['l'] <= x['l']) for x in calls(g['body']))
+            if not loops or decl_in == 'loop' or cleared:
+                r.ok(g['qname'], site, 'holder %s' % ('declared inside the record loop' if decl_in == 'loop' else ('cleared before the read' if cleared else 'used once')), file=g['file'], line=c['l'])
+            else:
+                r.violation(g['qname'], site, 'the holder %s lives across the iterations of the loop at line %s and %s only inserts: every later attribute of this kind also receives the entries of the earlier ones '
+                            '(e.g. CKA_UNWRAP_TEMPLATE = its own entries plus those of CKA_WRAP_TEMPLATE after a reload)' % (v, loops[-1]['l'], nm), file=g['file'], line=c['l'])
+
+
 def r4_layering(ctx, prog):
     r = ctx.rule('C05.R4', 'session objects never reach the file, directory or database layer', floor=10, engine='E6')
     forbidden = ('File::', 'Directory::', 'DB::', 'DBObject::', 'DBToken::', 'ObjectFile::', 'OSToken::', 'Generation::')
@@ -427,9 +502,16 @@ def run(ctx):
     r3b_write_errors(ctx, prog)
     r4_layering(ctx, prog)
     r5_delete(ctx, prog)
+    r3c_syscalls(ctx, prog)
+    r1c_fresh_holders(ctx, prog)
 
 
 MUTANTS = [
+    dict(name='directory-remove-only-enoent-fails', rule='C05.R3c', file='src/lib/object_store/Directory.cpp', after='bool Directory::remove(std::string name)',
+         old='\treturn (!::remove(fullPath.c_str()) && refresh());', new='\tif (::remove(fullPath.c_str()) != 0 && errno == ENOENT) return false;\n\treturn refresh();'),
+    dict(name='refresh-holders-outside-loop', rule='C05.R1c', file='src/lib/object_store/ObjectFile.cpp', after='void ObjectFile::refresh(bool isFirstTime',
+         edits=[dict(file='src/lib/object_store/ObjectFile.cpp', after='void ObjectFile::refresh(bool isFirstTime', old='\t\t\tstd::map<CK_ATTRIBUTE_TYPE,OSAttribute> value;\n', new=''),
+                dict(file='src/lib/object_store/ObjectFile.cpp', after='void ObjectFile::refresh(bool isFirstTime', old='\t// Read back the attributes\n', new='\tstd::map<CK_ATTRIBUTE_TYPE,OSAttribute> value;\n\t// Read back the attributes\n')]),
     dict(name='writer-mechset-as-bytestr-tag', rule='C05.R1', file='src/lib/object_store/ObjectFile.cpp', old='unsigned long osAttrType = MECHSET_ATTR;', new='unsigned long osAttrType = BYTESTR_ATTR;'),
     dict(name='readbytestring-caps-length', rule='C05.R1b', file='src/lib/object_store/File.cpp', after='bool File::readByteString(',
          old='\tvalue.resize(len);', new='\tif (len > 0xFFFF) return false;\n\n\tvalue.resize(len);'),
